@@ -121,6 +121,22 @@ var c01NilKey = probe.Define("C01", "nilkey", func(t *rapid.T) protIn {
 
 func TestC01(t *testing.T) {
 	c := probe.NewCtx(t, "C01")
+	if c.Shard == 0 {
+		endurance(c, "C01", "protect-unprotect-objects-only", 70000)
+	}
+	if c.Shard == 0 {
+		// every notify type and every configuration attribute type inside a protected message (what is validated or rewritten
+		// only on the protected path is reached too)
+		suite := bridge.SuiteSel{Encr: 0, Integ: 1}
+		keys := *fuzzKeysFor(suite)
+		for v := 0; v < 65536 && c.Failures() <= 3; v++ {
+			m := model.Message{Header: idSweepHeader(), Payloads: []model.Payload{{Kind: model.KNotify, Notify: &model.Notify{Type: uint16(v), Data: pat(1+v%3, byte(v))}}}}
+			if v < 32768 && v%2 == 1 {
+				m.Payloads = append(m.Payloads, model.Payload{Kind: model.KCP, CP: &model.CP{Type: 1, Attrs: []model.CPAttr{{Type: uint16(v), Value: pat(16, 1)}}}})
+			}
+			c01RoundTrip.Eval(c, protIn{Msg: m, Suite: suite, Keys: keys, SendI: v%2 == 0, WithHdr: v%4 >= 2})
+		}
+	}
 	c01RoundTrip.Run(c, t, c.N(3000, 30000))
 	c01NilKey.Run(c, t, c.N(1000, 8000))
 }
